@@ -65,8 +65,12 @@ def gen_decl(draw, name, classes, keywords=True, rest=True, untyped_ret=False, a
     ret = draw(gen_type(classes, allow_untyped=untyped_ret, arrays=arrays))
     if arrays and draw(st.integers(0, 5)) == 0:
         ret = [draw(st.sampled_from(["Int", "String", "Float"])), "NilClass"]
-    if draw(st.integers(0, 9)) == 0:
+    k = draw(st.integers(0, 19))
+    if k in (0, 1):
         ret = ["Self"]
+    elif k == 2:
+        # Self as member of a union: resolved per receiver, never stored back into the declaration
+        ret = ["Self", draw(st.sampled_from(["NilClass", "Int", "String"]))]
     return {"name": name, "args": args, "ret": ret, "block": []}
 
 
